@@ -25,11 +25,11 @@ CHECKS = {
         note=TRUST + "The CRC of the returned bytes is recomputed by the harness's own CRC-32.",
         tech="deterministic simulation: enumerated bit-rot faults on simulated storage, read under seeded short-read schedules"),
     "C05": dict(level="exploration", ref="DESIGN.md §4 C05",
-        text="Crash-truncated, torn, bit-rotted, spliced and structure-aware lying images (every prefix, every representative byte value at every structural offset, every header field x boundary value of small seeds are enumerated; random multi-site damage and arbitrary bytes are sampled) are driven through the whole reading surface (seekable reader, raw/decrypt/by-name access, all accessors, the provided methods of std::io::Read (read_to_end, read_to_string, read_exact, io::copy, bytes) where the real output is bounded by the input, streaming reader, visitor, open-for-append) in monitored worker processes; header fields are lied about one at a time and in combinations that vouch for each other (entry count + directory size, offset + size, both sizes, all variable lengths); panics (overflow checks on), aborts, step-budget overruns and heap blow-ups while opening are violations. Seeds carry the extra records real archivers write (Unicode path/comment with the CRC of the header's own name, UT, ux, NTFS, ASi, ...), well formed or claiming a length other than their body's. A further seed kind repeats one record signature or marker up to 300000 times in front of a small archive (work per marker: stack, steps).",
+        text="Crash-truncated, torn, bit-rotted, spliced and structure-aware lying images (every prefix, every representative byte value at every structural offset, every header field x boundary value of small seeds are enumerated; random multi-site damage and arbitrary bytes are sampled) are driven through the whole reading surface (seekable reader, raw/decrypt/by-name access, all accessors, the provided methods of std::io::Read (read_to_end, read_to_string, read_exact, io::copy, bytes) where the real output is bounded by the input, streaming reader, visitor, open-for-append) in monitored worker processes; header fields are lied about one at a time and in combinations that vouch for each other (entry count + directory size, offset + size, both sizes, all variable lengths); panics (overflow checks on), aborts, step-budget overruns and heap blow-ups while opening are violations. Seeds carry the extra records real archivers write (Unicode path/comment with the CRC of the header's own name, UT, ux, NTFS, ASi, ...), well formed or claiming a length other than their body's. A further seed kind repeats one record signature or marker up to 300000 times in front of a small archive (work per marker: stack, steps). An enumerated plan deletes 1..20 bytes and inserts 1/2/4/8 bytes at every offset of the last 160 bytes of small seeds (records cut short, everything behind shifted).",
         note=TRUST + "Heap bound 1024 x len + 8 MiB by a counting allocator; step budget 4M + 16 x len I/O calls; wall-clock watchdog for loops without I/O.",
         tech="deterministic simulation: seeded + enumerated storage faults (crash points, bit rot, lying fields) with panic/abort/step/heap monitors"),
     "C07": dict(level="exploration", ref="DESIGN.md §4 C07",
-        text="Archives with hostile and benign names are extracted by both extractors from a simulated source (short reads, optional reader fault) into a fresh 16-level-deep sandbox on the real file system; the sandbox outside the target is snapshotted before/after (confinement), unsafe names must yield Err, and for safe consistent names the tree, bytes and permission bits must equal the reference tree. Names come with slashes and with backslashes, directory entries may follow their children or exist already, older files (longer, shorter, equally long) may already sit at the paths of file entries, and the target is named absolutely or by relative spellings ('../target', './target', 'x/../target', '.'). The central directory of built archives may list the entries in another order than they lie in the file; their 'version made by' host is drawn (DOS, Unix, others).",
+        text="Archives with hostile and benign names are extracted by both extractors from a simulated source (short reads, optional reader fault) into a fresh 16-level-deep sandbox on the real file system; the sandbox outside the target is snapshotted before/after (confinement), unsafe names must yield Err, and for safe consistent names the tree, bytes and permission bits must equal the reference tree. Names come with slashes and with backslashes, directory entries may follow their children or exist already, older files (longer, shorter, equally long) may already sit at the paths of file entries, and the target is named absolutely or by relative spellings ('../target', './target', 'x/../target', '.'). The central directory of built archives may list the entries in another order than they lie in the file; their 'version made by' host is drawn (DOS, Unix, others). One clean extraction in three runs under effective uid 65534 (the harness itself is root, for whom the kernel strips no set-uid / set-gid bit and refuses nothing).",
         note=TRUST + "The sink is the real kernel FS on purpose (confinement is about what the kernel does with the path); even a real escape cannot leave the sandbox.",
         tech="deterministic simulation of the archive source + sandboxed real-FS snapshot oracle over a seeded hostile-name grammar"),
     "C08": dict(level="exploration", ref="DESIGN.md §4 C08",
@@ -45,7 +45,7 @@ CHECKS = {
         note=TRUST + "The seekable reader's own fidelity is established by C01/C03.",
         tech="deterministic simulation: seeded histories of partial consumption on a simulated non-seekable stream vs the seekable reader"),
     "C11": dict(level="fault_enumeration", ref="DESIGN.md §4 C11",
-        text="For each seeded program (writer sequences incl. append/raw copy/extra data/encryption; open+read-all incl. ZIP64/ZipCrypto/AES/junk prefix, comparing names, comments, extra data, counts and contents; the streaming loop; the streaming visitor with its central metadata) a failure-free run, then one run per I/O call index k and fault kind (hard error, sticky error, EINTR, zero-length write, early EOF) with the fault at k; remaining operations, retried reads on the failed entry, finish and Drop still run. Oracle: no panic/abort/hang; some call reported an error OR the outcome equals the failure-free run semantically; and if finish() reports success after an error was reported, the archive is structurally valid and lists no entry whose creating call failed.",
+        text="For each seeded program (writer sequences incl. append/raw copy/extra data/encryption; open+read-all incl. ZIP64/ZipCrypto/AES/junk prefix, comparing names, comments, extra data, counts and contents; the streaming loop; the streaming visitor with its central metadata) a failure-free run, then one run per I/O call index k and fault kind (hard error, sticky error, EINTR, zero-length write, early EOF) with the fault at k; remaining operations, retried reads on the failed entry, finish and Drop still run. Oracle: no panic/abort/hang; some call reported an error OR the outcome equals the failure-free run semantically; and if finish() reports success after an error was reported, the archive is structurally valid and lists no entry whose creating call failed. A further program kind opens archives with more than 65535 entries under a fault at each of the first 64 calls (entry count, comment, names compared).",
         note=TRUST + "k is enumerated completely when the failure-free run has <= 400 I/O calls, otherwise first/last 100 plus a seeded sample; pairs of faults in the thorough tier.",
         tech="deterministic simulation: fault enumeration over every I/O call index of seeded programs"),
     "C12": dict(level="exploration", ref="DESIGN.md §4 C12, Appendix C",
